@@ -18,8 +18,24 @@ from gsa.context import Context  # noqa: E402
 from gsa.props import PROPS  # noqa: E402
 
 
+def anchor_files(pid):
+    out = []
+    try:
+        with open(os.path.join(os.path.dirname(os.path.dirname(os.path.abspath(__file__))), "properties.jsonl")) as fh:
+            for line in fh:
+                d = json.loads(line)
+                if d.get("id") == pid:
+                    out = list((d.get("anchors") or {}).get("files") or [])
+    except OSError:
+        pass
+    return out
+
+
 def run_property(pid, tier, seed):
     meta = PROPS[pid]
+    if tier == "thorough":
+        # nothing is taken from the analysis caches: MIR facts are keyed by the tree, the numeric analysis is recomputed
+        os.environ["GSA_NUM_NOCACHE"] = "1"
     ctx = Context(tier=tier)
     rep = report.Report(pid)
     for rule_id, fn in meta["rules"]:
@@ -32,7 +48,18 @@ def run_property(pid, tier, seed):
     for a in meta.get("assumptions", []):
         rep.assume(a)
     rep.note_analysed("facts_file", [os.path.basename(ctx.facts_path)] if ctx.facts_path else [])
-    return report.finish(rep, meta, tier, seed)
+    extra = None
+    if tier == "thorough" and os.environ.get("GSA_NO_SELFTEST") != "1":
+        # checker self-test on scratch copies of the current tree: known breakages of this property must be reported,
+        # behaviour-preserving refactorings must not.  It documents the check's reach; it never changes the verdict.
+        from selftest import sensitivity
+        os.environ.pop("GSA_NUM_NOCACHE", None)
+        st = sensitivity.run(pid, tuple(anchor_files(pid)))
+        extra = {"selftest": st}
+        print("SELFTEST property=%s breakages detected %d/%d%s, refactorings silent %d/%d%s, skipped %d" % (
+            pid, st["breakages_detected"], st["breakages_run"], (" (missed: %s)" % ",".join(st["breakages_missed"])) if st["breakages_missed"] else "",
+            st["controls_silent"], st["controls_run"], (" (alarmed: %s)" % ",".join(st["controls_alarmed"])) if st["controls_alarmed"] else "", len(st["skipped"])))
+    return report.finish(rep, meta, tier, seed, extra)
 
 
 def extract_errors():
